@@ -22,6 +22,8 @@ EXPORT int c20_log_take(int *buf, int cap) {
     g_nlog = 0;
     return k;
 }
+/* number of times a registration function of this library has been run (read by the harness via dlsym) */
+EXPORT int c20_reg_calls = 0;
 EXPORT void *c20_table_of(void *instance) { return &((inst_t *)instance)->F; }
 
 #define I ((inst_t *)instance)
@@ -66,6 +68,7 @@ static void cleanup(void *instance) { free(instance); }
 
 EXPORT alpaqa_control_problem_register_t c20_ocp_register(alpaqa_register_arg_t arg) {
     alpaqa_control_problem_register_t r;
+    ++c20_reg_calls;
     ALPAQA_PROBLEM_REGISTER_INIT(&r);
     inst_t *in = calloc(1, sizeof *in);
     if (arg.data) in->P = *(const c20_params *)arg.data;
@@ -109,3 +112,9 @@ EXPORT alpaqa_control_problem_register_t c20_ocp_badabi(alpaqa_register_arg_t ar
     return r;
 }
 EXPORT alpaqa_dl_abi_version_t c20_ocp_badabi_version(void) { return ALPAQA_DL_ABI_VERSION; }
+/* no <name>_version symbol: loads with a warning */
+EXPORT alpaqa_control_problem_register_t c20_ocp_noversion(alpaqa_register_arg_t arg) { return c20_ocp_register(arg); }
+/* <name>_version() reports another ABI while the returned struct carries the current one: must be rejected
+ * BEFORE the registration function is run */
+EXPORT alpaqa_control_problem_register_t c20_ocp_badversion(alpaqa_register_arg_t arg) { return c20_ocp_register(arg); }
+EXPORT alpaqa_dl_abi_version_t c20_ocp_badversion_version(void) { return ALPAQA_DL_ABI_VERSION ^ 0xFF; }
